@@ -61,6 +61,13 @@ def build_source(spec):
     if starstar is not None:
         parts.append("**" + starstar["name"])
     names = [p["name"] for p in spec["params"]]
+    if spec.get("late"):
+        # a module-level function whose string annotations name classes that are defined only later
+        src = f"{'async ' if spec['coro'] else ''}def f({', '.join(parts)}):\n"
+        src += "    LOG.append({" + ", ".join(f"{n!r}: {n}" for n in names) + "})\n"
+        src += "    return 'ret'\n"
+        src += "try:\n    g = inject(f)\nexcept TypeError:\n    g = 'REJECTED'\n"
+        return src
     src = "def make(T0, T1, T2, T3, resource, inject, Optional, Union, LOG):\n"
     src += "    LocalT0, LocalT1, LocalT2, LocalT3 = T0, T1, T2, T3\n"
     src += f"    {'async ' if spec['coro'] else ''}def f({', '.join(parts)}):\n"
@@ -101,7 +108,22 @@ class InjEnv(Env):
             new("KwOnly", "plain", "str")
         if r.random() < 0.2:
             new("VarKw", "none", None)
-        return {"coro": coro, "params": params}
+        spec = {"coro": coro, "params": params}
+        if not malformed and r.random() < 0.15:
+            # every injected annotation becomes a forward reference to a class defined after the first call
+            ok = False
+            for p in params:
+                if p["default"].startswith("dep:") and p["ann"] and "Local" not in p["ann"]:
+                    a = p["ann"].strip('"')
+                    for i in range(4):
+                        a = a.replace(f"T{i}", f"LateT{i}")
+                    p["ann"] = '"' + a + '"'
+                    ok = True
+                elif p["default"].startswith("dep:") and p["ann"]:
+                    p["ann"] = p["ann"].replace("LocalT", "LateT")
+                    ok = True
+            spec["late"] = ok
+        return spec
 
     def add_dep(self, r, new, kind, malformed):
         t, name = self.pick_key(r)
@@ -147,12 +169,20 @@ class InjEnv(Env):
         spec = op["spec"]
         src = build_source(spec)
         ns = {}
-        exec(compile(src, "<generated>", "exec"), ns)   # noqa: S102
         from typing import Optional, Union
+        if not spec.get("late"):
+            exec(compile(src, "<generated>", "exec"), ns)   # noqa: S102
         log = []
+        late = bool(spec.get("late"))
         with warnings.catch_warnings(record=True) as w:
             warnings.simplefilter("always")
-            f, g = ns["make"](CLASSES[0], CLASSES[1], CLASSES[2], CLASSES[3], resource, inject, Optional, Union, log)
+            if late:
+                ns2 = {"resource": resource, "inject": inject, "Optional": Optional, "Union": Union, "LOG": log,
+                       **{f"T{i}": CLASSES[i] for i in range(4)}}
+                exec(compile(src, "<generated-late>", "exec"), ns2)   # noqa: S102
+                f, g = ns2["f"], ns2["g"]
+            else:
+                f, g = ns["make"](CLASSES[0], CLASSES[1], CLASSES[2], CLASSES[3], resource, inject, Optional, Union, log)
         if isinstance(g, str):
             return {"k": "Rejected"}
         if g is f:
@@ -185,12 +215,21 @@ class InjEnv(Env):
                     raise box[0][1]
                 return box[0][1]
             return await call()
-        h.job = job
-        h.job_done = anyio.Event()
-        h.leave.set()
-        with anyio.fail_after(10):
-            await h.job_done.wait()
-        kind, val = h.job_result
+        async def run_job():
+            h.job = job
+            h.job_done = anyio.Event()
+            h.leave.set()
+            with anyio.fail_after(10):
+                await h.job_done.wait()
+            return h.job_result
+        if late and not isinstance(g, str) and g is not f:
+            # first call: the forward references cannot be resolved yet -> NameError before any lookup
+            kind, val = await run_job()
+            if kind != "exc" or not isinstance(val, NameError) or log:
+                return {"k": "Call", "r": "odd", "detail": f"unresolvable forward reference: {kind} {val!r}"}
+            for i in range(4):
+                ns2[f"LateT{i}"] = CLASSES[i]
+        kind, val = await run_job()
         if kind == "exc":
             if log:
                 return {"k": "Call", "r": "body-ran-then-raised", "e": err_name(val)}
